@@ -92,16 +92,17 @@ def ul(tier):
         # quick: a stratified sample; thorough: EVERY list without a VaryingSize parameter (their fill model is tiny)
         # and one list per fine signature of those with one
         if tier == 'quick':
-            sel = [('pairs', False, True, 1, False), ('pairs2', False, True, 3, False), ('triples', False, True, 16, False),
-                   ('pairs', False, False, 6, False), ('pairs2', False, False, 20, False),
-                   ('triples', False, False, 80, False)]
+            sel = [('pairs', False, True, 1, False, 2), ('pairs2', False, True, 3, False, 2),
+                   ('triples', False, True, 16, False, 3),
+                   ('pairs', False, False, 6, False, 1), ('pairs2', False, False, 20, False, 1),
+                   ('triples', False, False, 80, False, 1)]
         else:
-            sel = [('pairs', True, True, 1, True), ('pairs2', True, True, 1, True), ('triples', True, True, 1, True),
-                   ('pairs', True, False, 1, False), ('pairs2', True, False, 1, False),
-                   ('triples', True, False, 1, False)]
+            sel = [('pairs', True, True, 1, True, 1), ('pairs2', True, True, 1, True, 1), ('triples', True, True, 1, True, 1),
+                   ('pairs', True, False, 1, False, 1), ('pairs2', True, False, 1, False, 1),
+                   ('triples', True, False, 1, False, 1)]
         out = []
-        for name, fine, cheap, every, everything in sel:
-            for d in vlib.select_lists(name, fine, cheap, every, everything):
+        for name, fine, cheap, every, everything, reps in sel:
+            for d in vlib.select_lists(name, fine, cheap, every, everything, reps):
                 out.append(('SU', vlib.cfg_of_list(d), 'AE', 'asan0'))
         return out
     return units
@@ -120,7 +121,7 @@ class Units(list):
 # property -> units per tier, judgement kinds routed to it, crash routing, extra filter
 PROPS = {
     'C01': {'level': 'model_checking',
-            'units': {'quick': u('S1', ALL), 'thorough': u('S1', ALL, ('AE', 'NP'))},
+            'units': {'quick': u('S1', ALL), 'thorough': u('S1', ALL, ('AE', 'NP')) + u('S1', ALL, ('AE',), ('ndebug',))},
             'kinds': K_SEQ | {'PATHS_DISAGREE'}, 'crash': crash_any, 'filter': None,
             'technique': 'TLA+ model (Cntgs.tla) explored by TLC; transition-cover histories replayed on the real '
                          'templates; every step of the recorded trace judged by Trace.tla (sequence semantics)'},
@@ -131,11 +132,15 @@ PROPS = {
             'technique': 'TLC-enumerated histories and payload distributions replayed under ASan with poisoned '
                          'redzones; observed addresses judged against block bounds by Trace.tla/Layout.tla'},
     'C03': {'level': 'model_checking',
-            'units': {'quick': Units(u('S1', ALIGNED) + u('SF', ['V_TA', 'M_NA', 'VV_T']), ul('quick')),
-                      'thorough': Units(u('S1', ALIGNED, ('AE', 'NP')) + u('SF', ['V_TA', 'M_NA', 'VV_T']), ul('thorough'))},
+            'units': {'quick': Units(u('S1', ALIGNED) + u('SF', ['V_TA', 'M_NA', 'VV_T'])
+                                     + u('S1', ['V_TA', 'M_NA'], ('AE',), ('ndebug',)), ul('quick')),
+                      'thorough': Units(u('S1', ALIGNED, ('AE', 'NP')) + u('SF', ['V_TA', 'M_NA', 'VV_T'])
+                                        + u('S1', ALIGNED, ('AE',), ('ndebug',)) + u('S2', ALIGNED, ('AE',), ('ndebug',))
+                                        + u('S3', ALIGNED, ('AE',), ('ndebug',)), ul('thorough'))},
             'kinds': K_ALIGN, 'crash': crash_assert, 'filter': None,
             'technique': 'observed numeric addresses of AlignAs objects judged by Layout!ElemsAligned in every '
-                         'recorded state; blocks based at odd multiples of the storage alignment'},
+                         'recorded state; blocks based at odd multiples of the storage alignment; includes the g++ -O2 -DNDEBUG '
+                         'build in which the library\'s assume_aligned hints are live'},
     'C04': {'level': 'model_checking',
             'units': {'quick': Units(u('S1', ALL) + u('SF', VARYING), ul('quick')),
                       'thorough': Units(u('S1', ALL, ('AE', 'NP')) + u('SF', VARYING), ul('thorough'))},
